@@ -132,7 +132,9 @@ func (d *Decoder) Decode(pkt *rtp.Packet) ([][]byte, error) {
 			return nil, fmt.Errorf("fragment is too big")
 		}
 
-		d.fragments = append(d.fragments, pkt.Payload[2:])
+		if le != 0 { // a fragment without data is not retained
+			d.fragments = append(d.fragments, pkt.Payload[2:])
+		}
 		d.fragmentNextSeqNum++
 
 		if d.fragmentsExpected > 0 {
